@@ -21,6 +21,12 @@ def listOK (cells : Array Cell) (i : Nat) : Bool :=
   | some (.list n k) => decide (k ≤ n)
   | _ => true
 
+/-- a header cell (text, bytes, symbol list, list) has all the cells it announces -/
+def headerOK (cells : Array Cell) (i : Nat) : Bool :=
+  match cells[i]? with
+  | some (.charList _) | some (.byteList _) | some (.symbolList _) | some (.list _ _) => isNode cells i
+  | _ => true
+
 /-- the node at `i` reads the same with and without the cells at or above `r` -/
 def extentOK (cells : Array Cell) (r i : Nat) : Bool :=
   decide (shape (cells.extract 0 r) i = shape cells i)
@@ -36,7 +42,7 @@ def symOK (cells : Array Cell) : Cell → Bool
 /-- **WF**: the decidable well-formedness of a store (independent of any root set) -/
 def wf (s : Store) : Bool :=
   decide (s.retention ≤ s.cells.size) &&
-  (List.range s.cells.size).all (fun i => nodeOK s.cells i && listOK s.cells i) &&
+  (List.range s.cells.size).all (fun i => nodeOK s.cells i && listOK s.cells i && headerOK s.cells i) &&
   (List.range s.retention).all (extentOK s.cells s.retention) &&
   headOK s.cells s.currentRegister && headOK s.cells s.currentValue && headOK s.cells s.currentFrame &&
   s.symtab.toList.all (symOK s.cells)
@@ -48,6 +54,7 @@ structure WF (s : Store) : Prop where
   retLe : s.retention ≤ s.cells.size
   nodes : ∀ i, i < s.cells.size → nodeOK s.cells i = true
   lists : ∀ i, i < s.cells.size → listOK s.cells i = true
+  headers : ∀ i, i < s.cells.size → headerOK s.cells i = true
   extent : ∀ i, i < s.retention → extentOK s.cells s.retention i = true
   reg : headOK s.cells s.currentRegister = true
   val : headOK s.cells s.currentValue = true
@@ -59,9 +66,10 @@ theorem wf_iff (s : Store) : wf s = true ↔ WF s := by
   simp only [Bool.and_eq_true, decide_eq_true_eq, List.all_eq_true, List.mem_range]
   constructor
   · rintro ⟨⟨⟨⟨⟨⟨h1, h2⟩, h3⟩, h4⟩, h5⟩, h6⟩, h7⟩
-    exact ⟨h1, fun i hi => (h2 i hi).1, fun i hi => (h2 i hi).2, h3, h4, h5, h6, h7⟩
+    exact ⟨h1, fun i hi => (h2 i hi).1.1, fun i hi => (h2 i hi).1.2, fun i hi => (h2 i hi).2, h3, h4, h5, h6, h7⟩
   · intro h
-    exact ⟨⟨⟨⟨⟨⟨h.retLe, fun i hi => ⟨h.nodes i hi, h.lists i hi⟩⟩, h.extent⟩, h.reg⟩, h.val⟩, h.frm⟩, h.syms⟩
+    exact ⟨⟨⟨⟨⟨⟨h.retLe, fun i hi => ⟨⟨h.nodes i hi, h.lists i hi⟩, h.headers i hi⟩⟩, h.extent⟩, h.reg⟩, h.val⟩,
+      h.frm⟩, h.syms⟩
 
 instance (s : Store) : Decidable (WF s) := decidable_of_iff _ (wf_iff s)
 
